@@ -325,6 +325,21 @@ pub fn families(ctx: &Ctx) -> Vec<Family> {
             }
             parents.push_str("multiclass Self : Self { def s; defm in : Self; }\ndefm T : P299, Self;\ndef u { defvar q = [Tr0, Tr299, Tr300, Ts, Tins, Tinins]; }\n");
             shapes.push(parents);
+            // an include graph of stacked diamonds (40 levels, 121 files, 2^40 paths)
+            let mut ladder: Vec<(String, String)> = Vec::new();
+            for i in 0..=40 {
+                let mut a = format!("class A{i};\n");
+                if i < 40 {
+                    a.push_str(&format!("include \"b{i}.td\"\ninclude \"c{i}.td\"\n"));
+                    ladder.push((format!("b{i}.td"), format!("include \"a{}.td\"\ndef db{i} : A{};\n", i + 1, i + 1)));
+                    ladder.push((format!("c{i}.td"), format!("include \"a{}.td\"\ndef dc{i} : A{};\n", i + 1, i + 1)));
+                }
+                ladder.push((if i == 0 { "root.td".to_string() } else { format!("a{i}.td") }, a));
+            }
+            let ladder: Vec<(String, String)> = ladder.into_iter().map(|(n, t)| (n, t.replace("\"a0.td\"", "\"root.td\""))).collect();
+            if !emit(ws_case(&ladder, "root.td")) {
+                return;
+            }
             for s in shapes {
                 if !emit(ws_case(&[("root.td".into(), s.clone())], "root.td")) {
                     return;
